@@ -20,6 +20,7 @@ os.rmdir(wt)
 out = {"candidate": cand}
 try:
     subprocess.run(["git", "-C", "/repo", "worktree", "add", "-q", "--detach", wt, "HEAD"], check=True)
+    shutil.copy("/repo/pydra/utils/_version.py", os.path.join(wt, "pydra/utils/_version.py"))  # git-ignored, generated at install time
     demo = os.path.join(cand, "demo.py")
     shutil.copy(demo, os.path.join(wt, "_demo.py"))
     env = dict(os.environ)
